@@ -60,6 +60,12 @@ def groups(tier):
     for klass in ('Hessian', 'Hessdiag'):
         out.append(('contract:hessian-table[%s]' % klass, ('dep', 'C04', 'run_call', (klass, tier), {})))
     # the Wynn stage's estimate (dea3) is taken by contract in the record / richardson groups: discharged here as well
+    # ... and so is the rule of the scalar Derivative (a wrong sign or weight gives self-consistent, confidently wrong estimates)
+    from . import C06
+    ns_, orders_ = C06.grid(tier)
+    for m_ in C06.METHODS:
+        for n_ in ns_:
+            out.append(('contract:rule[%s,n=%d]' % (m_, n_), ('dep', 'C06', 'run_cfg', (m_, n_, orders_), dict(group_fmt='contract:rule[%s,n=%d]/order=%d/', requested_order=False))))
     out.append(('contract:dea3[geometric]', ('dep', 'C13', 'run_geometric', (), {})))
     out.append(('contract:dea3[total]', ('dep', 'C13', 'run_total', (), {})))
     return out
@@ -240,6 +246,17 @@ def run_argmin(K):
             it = it.t if isinstance(it, Z) else z3.ToInt(it.t)
             solve.prove('P:arg-min:col%d:middle-of-the-tied-minima,flat-index=row*N+col' % c, it == want * N + c, paths[0].hyps)
         solve.twin('P:arg-min:always-row-0', z3.And(*[(lift(idx[c]).t if isinstance(lift(idx[c]), Z) else z3.ToInt(lift(idx[c]).t)) == c for c in range(N)]), paths[0].hyps)
+    # NaN estimates (symbolic reals are never NaN: executed on concrete tables): a column that is NaN in SOME rows still selects its
+    # smallest finite estimate; only a column that is NaN in every row falls back to row 0
+    real_lm = mods()['lm']
+    nan = float('nan')
+    tab = np.array([[nan, 3.0, nan, 0.5], [nan, 1.0, nan, nan], [2.0, nan, nan, 0.25], [1.5, 2.0, nan, nan]][:max(K, 2)])
+    with warnings.catch_warnings():
+        warnings.simplefilter('ignore')
+        got = np.asarray(real_lm._Limit._get_arg_min(tab.copy()))
+    want_rows = [int(np.nanargmin(tab[:, c])) if not np.all(np.isnan(tab[:, c])) else 0 for c in range(tab.shape[1])]
+    solve.fact('P:arg-min:partly-NaN-columns-select-their-smallest-finite-estimate,all-NaN-columns-row-0[%d rows]' % tab.shape[0],
+               got.shape == (tab.shape[1],) and [int(v) for v in got] == [r_ * tab.shape[1] + c for c, r_ in enumerate(want_rows)], note=str(got.tolist()))
     return {}
 
 
@@ -326,7 +343,7 @@ def replay_case(ob):
     import re
     nm = ob['name']
     for pre, modname, orig in [('contract:jacobian-table[', 'C03', 'jac['), ('contract:hessian-table[', 'C04', 'call['),
-                               ('contract:dea3[geometric]/', 'C13', 'geometric/'), ('contract:dea3[total]/', 'C13', 'total/')]:
+                               ('contract:rule[', 'C06', 'cfg['), ('contract:dea3[geometric]/', 'C13', 'geometric/'), ('contract:dea3[total]/', 'C13', 'total/')]:
         if nm.startswith(pre):
             import importlib
             return importlib.import_module('props.' + modname).replay_case(dict(ob, name=orig + nm[len(pre):]))
